@@ -211,7 +211,8 @@ VerbSegs   == {Verbatim(3, "bash", b, t) : b \in {<<>>, <<Plain("echo")>>, <<Cmd
               \cup {Verbatim(3, "@U@{a}", <<Plain("echo")>>, TRUE)}
 ScrutSegs  == {Scrut(n, "", <<>>, b, TRUE) : n \in {3, 4}, b \in Bodies}
               \cup {Scrut(3, cfg, com, <<Cmd("c1"), Plain("out1")>>, t) :
-                        cfg \in {"", "{timeout: 3s}"}, com \in {<<>>, <<Hash("a comment")>>}, t \in BOOLEAN}
+                        \* (an inline configuration is kept as written, including blanks inside quoted values)
+                        cfg \in {"", "{timeout: 3s}", "{environment: {A: \"x  y\"}}"}, com \in {<<>>, <<Hash("a comment")>>}, t \in BOOLEAN}
               \cup {Scrut(4, "", <<>>, <<Cmd("c1"), Fence(3), Plain("inner"), Fence(3)>>, TRUE),
                     \* an expectation that starts with a fence followed by text, and no bare fence of that length
                     Scrut(4, "", <<>>, <<Cmd("c1"), Open(3, "js", ""), Plain("inner")>>, TRUE),
